@@ -10,6 +10,78 @@ use crate::rng::Rng;
 pub const ENC: &[&str] = &["f64", "f32", "of64", "oi32"];
 pub const OUTS: &[&str] = &["f64", "f32", "of64", "oi32"];
 
+/// aggregations / order statistics whose value must not change under insertion or deletion of nulls:
+/// (request name, extra parameters, two-series)
+pub const TRANSPARENT: &[(&str, &str, bool)] = &[
+    ("agg_count_valid", " src=owned", false), ("agg_vsum", " src=owned", false), ("agg_vmean", " src=owned", false),
+    ("agg_vmax", " src=owned", false), ("agg_vmin", " src=owned", false),
+    ("agg_vmean_var", " src=owned mp=1", false), ("agg_vvar", " src=owned mp=2", false), ("agg_vstd", " src=owned mp=1", false),
+    ("agg_vskew", " src=owned mp=1", false), ("agg_vkurt", " src=owned mp=1", false),
+    ("agg_vcov", " src=owned mp=1", true), ("agg_vcorr_pearson", " src=owned mp=1", true),
+    ("vquantile", " q=1/4 m=linear", false), ("vquantile", " q=3/4 m=midpoint", false), ("vmedian", "", false),
+    ("vpercentile_of", " s=1 m=rank", false), ("vpercentile_of", " s=2 m=weak", false),
+];
+
+/// interleave: mask char '0' takes the next base element (pair), 'x' inserts a null into the first
+/// series (and an arbitrary value into the second), 'y' the other way round, 'b' nulls in both
+pub fn insert_nulls(base: &[&str], mask: &str, first: bool) -> Vec<String> {
+    let mut it = base.iter();
+    let mut out = vec![];
+    for c in mask.chars() {
+        match c {
+            '0' => { if let Some(v) = it.next() { out.push(v.to_string()); } },
+            'x' => out.push(if first { "_".into() } else { "7".into() }),
+            'y' => out.push(if first { "7".into() } else { "_".into() }),
+            _ => out.push("_".into()),
+        }
+    }
+    out.extend(it.map(|v| v.to_string()));
+    out
+}
+
+fn inner(r: &Req, xs: &[String], ys: Option<&[String]>) -> Req {
+    let mut q = Req::parse(r.s("f"));
+    for k in &r.order {
+        if !matches!(k.as_str(), "f" | "xs" | "ys" | "ins") {
+            q.set(k, r.kv[k].clone());
+        }
+    }
+    q.set("xs", join(xs));
+    if let Some(ys) = ys {
+        q.set("ys", join(ys));
+    }
+    q
+}
+
+/// `C08ins f=<fn> ins=<mask> ... xs=<base> [ys=<base>]` → `<result on base>;<result with nulls inserted>`
+pub fn run(r: &Req) -> Option<String> {
+    if r.f != "C08ins" {
+        return None;
+    }
+    let xs: Vec<String> = r.list("xs").iter().map(|s| s.to_string()).collect();
+    let two = r.has("ys");
+    let ys: Vec<String> = r.list("ys").iter().map(|s| s.to_string()).collect();
+    let xr: Vec<&str> = xs.iter().map(|s| s.as_str()).collect();
+    let yr: Vec<&str> = ys.iter().map(|s| s.as_str()).collect();
+    let xi = insert_nulls(&xr, r.s("ins"), true);
+    let yi = insert_nulls(&yr, r.s("ins"), false);
+    let a = super::run(&inner(r, &xs, if two { Some(&ys) } else { None }))?;
+    let b = super::run(&inner(r, &xi, if two { Some(&yi) } else { None }))?;
+    Some(format!("{};{}", a.replace(';', "|"), b.replace(';', "|")))
+}
+
+pub fn compare(r: &Req, imp: &str, model: &str) -> Option<bool> {
+    if r.f != "C08ins" {
+        return None;
+    }
+    let (a, b) = imp.split_once(';')?;
+    let m = model.split(';').next().unwrap_or("");
+    let mode = crate::cmp::Mode::of("f64");
+    let tols = [1e-7f64; 4];
+    let eq = |x: &str| crate::cmp::line_eq_tols(&x.replace('|', ";"), &m.replace('|', ";"), mode, Some(&tols));
+    Some(eq(a) && eq(b))
+}
+
 pub fn valid_case(r: &Req) -> bool {
     if r.f.starts_with("C08") {
         return true;
@@ -59,10 +131,29 @@ pub fn generate(tier: &str, rng: &mut Rng) -> (Vec<String>, bool) {
             }
         }
     }
+    // null-insertion transparency of the aggregations and order statistics
+    let masks1 = ["1000", "0100", "0011", "1010", "00001", "11000", "10101", "0001000", "1110000"];
+    let masks2 = ["x000", "0y00", "00b0", "xy00", "0x0y", "b0x0y", "000xyb"];
+    let ins_len = if thorough { 5 } else { 4 };
+    for (f, extra, two) in TRANSPARENT {
+        for len in 0..=ins_len {
+            for (si, xs) in all_series(&["_", "0", "1", "3"], len).into_iter().enumerate() {
+                if xs.iter().filter(|v| *v != "_").count() > 4 && !thorough { continue; }
+                let ys: Vec<String> = xs.iter().enumerate().map(|(i, v)| if v == "_" && (i + si) % 2 == 0 { "_".to_string() } else { format!("{}", (i * i + si + 1) % 4) }).collect();
+                let t = ["f64", "of64", "oi32"][si % 3];
+                for m in (if *two { &masks2[..] } else { &masks1[..] }).iter() {
+                    let mk = if *two { m.to_string() } else { m.replace('1', "b") };
+                    let mut l = format!("C08ins f={} ins={} t={}{} xs={}", f, mk, t, extra, join(&xs));
+                    if *two { l.push_str(&format!(" ys={}", join(&ys))); }
+                    out.push(l);
+                }
+            }
+        }
+    }
     out.extend(super::c08_extra(tier, rng));
     (out, true)
 }
 
 pub fn rule(tier: &str) -> String {
-    format!("every null-aware catalogued entry point on the same logical series under the four encodings (f64 NaN, f32 NaN, Option<f64> None, Option<i32> None) x four output element types (f64, f32, Option<f64>, Option<i32>): all 16 cells must equal the single model result; exhaustive over {{null,0,1,3}}^len, len <= {}, windows {{1,2,3,len+1}}, min_periods {{omitted,1,w}}, plus random integral series to length 45; null-insertion transparency of aggregations via relational requests once the aggregation runner is merged. non-trivial = len >= 2 with a non-null output.", if tier == "thorough" { 5 } else { 3 })
+    format!("every null-aware catalogued entry point on the same logical series under the four encodings (f64 NaN, f32 NaN, Option<f64> None, Option<i32> None) x four output element types (f64, f32, Option<f64>, Option<i32>): all 16 cells must equal the single model result; exhaustive over {{null,0,1,3}}^len, len <= {}, windows {{1,2,3,len+1}}, min_periods {{omitted,1,w}}, plus random integral series to length 45; null-insertion transparency: for 17 aggregation / order-statistic configurations (count_valid, vsum, vmean, vmax, vmin, vmean_var, vvar, vstd, vskew, vkurt, vcov, vcorr_pearson, vquantile x2, vmedian, vpercentile_of x2) every base series over {{null,0,1,3}} up to length 4 with 7-9 insertion masks (leading, trailing, interleaved, blocks; pairwise patterns for two-series functions): result on the base series and on the series with nulls inserted both compared with the model. non-trivial = len >= 2 with a non-null output.", if tier == "thorough" { 5 } else { 3 })
 }
